@@ -11,8 +11,9 @@
         * an int factor not representable at the vector's width (numeric_std converts it to that width first),
         * unary minus on Unsigned (numeric_std has no such operator),
         * a negative int next to an Unsigned (numeric_std's NATURAL subtype);
-      not covered here (checked per design only): bitwise operators on Signed, shifts, resize, views, Signed/int
-      mixed arithmetic, division with an int operand;
+      shifts against SHIFT_LEFT / SHIFT_RIGHT (count = int or TO_INTEGER of an Unsigned, any count up to integer'high)
+      and resize against RESIZE are covered; not covered here (checked per design only): bitwise operators on
+      Signed, views, resize with zero padding of a Signed, Signed/int mixed arithmetic, division with an int operand;
     - C02_select_first_match, C02_chained_compare_is_conjunction, C02_concat_msb_left, C02_shift_right_kind. *)
 From Coq Require Import ZArith NArith List Bool Lia.
 From Cohdl Require Import Base.Bits Vhdl.Value Vhdl.NumStd Equiv.RefTS Models.ExprRef Models.ExprRefProofs.
@@ -88,6 +89,47 @@ Theorem C02_agrees_with_numeric_std_neg_abs_signed : forall w a, rng KS w a ->
   eval_unop UAbs (scalar_value KS w a) = Ok (to_value (un_eval NAbs (TV KS w a))).
 Proof. exact neg_abs_agrees_S. Qed.
 Print Assumptions C02_agrees_with_numeric_std_neg_abs_signed.
+
+Theorem C02_agrees_with_numeric_std_shift_unsigned : forall w a n, rng KU w a -> 0 <= n <= int_max ->
+  eval_fn2 FShl (scalar_value KU w a) (VI n) = Ok (to_value (bin_eval BShl (TV KU w a) (TV KInt 0 n))) /\
+  eval_fn2 FShr (scalar_value KU w a) (VI n) = Ok (to_value (bin_eval BShr (TV KU w a) (TV KInt 0 n))).
+Proof. exact shift_agrees_U. Qed.
+Print Assumptions C02_agrees_with_numeric_std_shift_unsigned.
+
+Theorem C02_agrees_with_numeric_std_shift_signed : forall w a n, rng KS w a -> 0 <= n <= int_max ->
+  eval_fn2 FShl (scalar_value KS w a) (VI n) = Ok (to_value (bin_eval BShl (TV KS w a) (TV KInt 0 n))) /\
+  eval_fn2 FShr (scalar_value KS w a) (VI n) = Ok (to_value (bin_eval BShr (TV KS w a) (TV KInt 0 n))).
+Proof. exact shift_agrees_S. Qed.
+Print Assumptions C02_agrees_with_numeric_std_shift_signed.
+
+Theorem C02_agrees_with_numeric_std_shift_count_unsigned : forall op k w a wc n,
+  (op = BShl \/ op = BShr) -> (k = KU \/ k = KS) -> 0 <= n <= int_max ->
+  eval_fn1 FToInteger (scalar_value KU wc n) = Ok (VI n) /\
+  bin_eval op (TV k w a) (TV KU wc n) = bin_eval op (TV k w a) (TV KInt 0 n).
+Proof. exact shift_count_unsigned. Qed.
+Print Assumptions C02_agrees_with_numeric_std_shift_count_unsigned.
+
+Example C02_shift_nonvacuous : rng KS 3 (-3) /\ rng KU 3 5 /\
+  bin_eval BShl (TV KS 3 (-3)) (TV KInt 0 1) = TV KS 3 2 /\ bin_eval BShr (TV KS 3 (-3)) (TV KInt 0 7) = TV KS 3 (-1) /\
+  bin_eval BShl (TV KU 3 5) (TV KU 2 3) = TV KU 3 0 /\ bin_eval BShr (TV KU 3 5) (TV KU 2 1) = TV KU 3 2.
+Proof. vm_compute. auto 10. Qed.
+Print Assumptions C02_shift_nonvacuous.
+
+Theorem C02_agrees_with_numeric_std_resize : forall k w a n, (k = KU \/ k = KS) -> rng k w a -> (w <= n)%N -> Z.of_N n <= int_max ->
+  eval_fn2 FResize (scalar_value k w a) (VI (Z.of_N n)) = Ok (to_value (xeval [] (XResize (XConst k w a) n 0))).
+Proof. exact resize_agrees. Qed.
+Print Assumptions C02_agrees_with_numeric_std_resize.
+
+Theorem C02_agrees_with_numeric_std_resize_zeros_unsigned : forall w a n z, rng KU w a -> (w + z <= n)%N -> Z.of_N n <= int_max ->
+  (do c <- eval_binop OConcat (VV KSlv w a) (VV KSlv z 0); do u <- eval_fn1 FConvUns c; eval_fn2 FResize u (VI (Z.of_N n)))
+  = Ok (to_value (xeval [] (XResize (XConst KU w a) n z))).
+Proof. exact resize_zeros_agrees_U. Qed.
+Print Assumptions C02_agrees_with_numeric_std_resize_zeros_unsigned.
+
+Example C02_resize_nonvacuous : rng KS 2 (-2) /\ xeval [] (XResize (XConst KS 2 (-2)) 4 0) = TV KS 4 (-2) /\
+  xeval [] (XResize (XConst KU 2 3) 5 2) = TV KU 5 12.
+Proof. vm_compute. auto. Qed.
+Print Assumptions C02_resize_nonvacuous.
 
 Theorem C02_agrees_with_numeric_std_mul_int_partial : forall w a n, rng KU w a -> 0 <= n < pow2 w -> n <= int_max ->
   eval_binop OMul (scalar_value KU w a) (VI n) = Ok (to_value (bin_eval BMul (TV KU w a) (TV KInt 0 n))).
